@@ -36,6 +36,8 @@ def cond(e):
         "input.device.type == 'cpu'": "dev_cpu",
         "input.qtype == qint8": "a_qint8",
         "other.qtype == qint8": "w_qint8",
+        "input.axis in (None, 0)": "a_outer_axis",
+        "other.axis in (None, -1)": "w_outer_axis",
         "n > 16": "(tokens >? 16)",
         "n % 8 == 0": "(tokens mod 8 =? 0)",
         "m % 8 == 0": "(inf mod 8 =? 0)",
@@ -105,7 +107,7 @@ def generate(repo, out_path):
             inner = [s for s in outer.body if isinstance(s, ast.If)][0]
             if ast.unparse(outer.test) != "isinstance(input, QBytesTensor) and isinstance(other, QBytesTensor)":
                 raise Bad("outer test of mm")
-            text += f"Definition src_mm_int_route (dev_cuda dev_cpu ge24 a_qint8 w_qint8 : bool) (tokens inf outf : Z) : bool :=\n  {cond(inner.test)}.\n"
+            text += f"Definition src_mm_int_route (dev_cuda dev_cpu ge24 a_qint8 w_qint8 a_outer_axis w_outer_axis : bool) (tokens inf outf : Z) : bool :=\n  {cond(inner.test)}.\n"
         except (Bad, IndexError) as ex:
             errors.append(f"qbytes_ops.mm: {ex}")
             text += "Definition src_mm_int_route : unit := tt.\n"
